@@ -5,11 +5,16 @@ package main
 import (
 	"encoding/json"
 	"fmt"
+	"math/rand"
+	"net/http/httptest"
 	"sort"
 	"strconv"
 	"strings"
 	"sync"
+	"sync/atomic"
 	"time"
+
+	"github.com/gorilla/websocket"
 
 	"github.com/safing/portbase/api"
 	"github.com/safing/portbase/database"
@@ -30,6 +35,58 @@ type ext struct {
 	rtDB    string
 	prov    *logProvider
 	push    runtime.PushFunc
+	// key prefixes the provider is registered under ("p/" in the single-provider cases; "p/a/", "p/b/", … in the
+	// multi-provider cases, where one Registry.Query serves them in one goroutine each)
+	provKeys []string
+
+	// the transport the case's `api` operations use (op `apivia`): "" / "handle" = a DatabaseAPI from
+	// api.CreateDatabaseAPI driven through Handle; "ws" = a websocket connection to the HTTP handler of
+	// /api/database/v1 (startDatabaseWebsocketAPI, which builds its own DatabaseAPI) served by a test server
+	inbox   map[string][]string // replies read off the transport while waiting for another operation's, by operation id
+	apiSubs map[string]string   // subscription name -> operation id of the `sub` request
+	via   string
+	wsSrv *httptest.Server
+	ws    *websocket.Conn
+	wsErr string
+}
+
+// transports counts the API operations per constructor of a DatabaseAPI (evidence).
+var (
+	transports    = map[string]int{}
+	transportLock sync.Mutex
+)
+
+// wsConn returns the case's websocket connection to the database API, opening it on first use.
+func (x *ext) wsConn(e *dbx.Exec) *websocket.Conn {
+	if x.ws != nil || x.wsErr != "" {
+		return x.ws
+	}
+	if x.replies == nil {
+		x.replies = make(chan string, 4096)
+	}
+	x.wsSrv = httptest.NewServer(api.VerifDatabaseWebsocketHandler())
+	conn, _, err := websocket.DefaultDialer.Dial("ws"+strings.TrimPrefix(x.wsSrv.URL, "http"), nil) //nolint:bodyclose
+	if err != nil {
+		x.wsErr = "err:websocket-dial:" + strings.Join(strings.Fields(err.Error()), "_")
+		x.wsSrv.Close()
+		return nil
+	}
+	x.ws = conn
+	replies := x.replies
+	go func() {
+		for {
+			_, msg, err := conn.ReadMessage()
+			if err != nil {
+				return
+			}
+			replies <- string(msg)
+		}
+	}()
+	e.Closers = append(e.Closers, func() {
+		_ = conn.Close()
+		x.wsSrv.Close()
+	})
+	return conn
 }
 
 // logProvider is the value provider of the injected runtime database: it keeps what Set receives under the
@@ -38,8 +95,11 @@ type logProvider struct {
 	e    *dbx.Exec
 	recs map[string]record.Record // database key -> record
 	sets []string                 // canonical rendering of every record Set received, in order
+	gate *gateCtl                 // set while a gated query (op rtgq) runs
 }
 
+// Get may be called by several goroutines of one Registry.Query at once (the provider is registered under several
+// key prefixes in the multi-provider cases): it only reads.
 func (p *logProvider) Get(keyOrPrefix string) ([]record.Record, error) {
 	var keys []string
 	for k := range p.recs {
@@ -52,7 +112,167 @@ func (p *logProvider) Get(keyOrPrefix string) ([]record.Record, error) {
 	for _, k := range keys {
 		out = append(out, dbx.CopyRecord(p.recs[k]))
 	}
+	if gt := p.gate; gt != nil {
+		// a gated query: the calling goroutine (one per provider registration) stops here and after the evaluation of
+		// each of its records (the record's Unlock) until the harness's scheduler lets it go on
+		g := &gateG{resume: make(chan struct{})}
+		for i := range out {
+			last := i == len(out)-1
+			out[i] = &gateRec{Record: out[i], stop: func(final bool) { gt.pause(g, final && last) }}
+		}
+		gt.pause(g, len(out) == 0)
+	}
 	return out, nil
+}
+
+// gateRec is a record that reports to the scheduler of a gated query. Registry.Query evaluates its filter between
+// Lock and Unlock (DatabaseKey for the key prefix, Meta twice for validity and permission) and decides after Unlock:
+// the goroutine is parked before each of those reads — between the evaluation of one check and the next — and,
+// after the evaluation, at the first Unlock, i.e. between evaluation and decision. Every stop happens once.
+type gateRec struct {
+	record.Record
+	stop   func(final bool)
+	nKey   int32
+	nMeta  int32
+	unlock sync.Once
+}
+
+func (g *gateRec) DatabaseKey() string {
+	if atomic.AddInt32(&g.nKey, 1) == 1 {
+		g.stop(false)
+	}
+	return g.Record.DatabaseKey()
+}
+
+func (g *gateRec) Meta() *record.Meta {
+	if atomic.AddInt32(&g.nMeta, 1) <= 2 {
+		g.stop(false)
+	}
+	return g.Record.Meta()
+}
+
+func (g *gateRec) Unlock() {
+	g.Record.Unlock()
+	g.unlock.Do(func() { g.stop(true) })
+}
+
+type gateG struct{ resume chan struct{} }
+
+type gateEvt struct {
+	g    *gateG
+	last bool // no further stop after this one
+}
+
+type gateCtl struct{ events chan gateEvt }
+
+func (gt *gateCtl) pause(g *gateG, last bool) {
+	gt.events <- gateEvt{g, last}
+	<-g.resume
+}
+
+// gatedQuery runs a query of interface id over prefix on the injected runtime database with every provider goroutine
+// of Registry.Query under the harness's scheduler: all goroutines are stopped when their provider has answered; then,
+// driven by the seed, one stopped goroutine at a time is let go until its next stop (the evaluation of its next
+// record) or its end. The result stream is drained concurrently. Returns what arrived, in order.
+func (x *ext) gatedQuery(e *dbx.Exec, id, pfx string, seed int64) ([]record.Record, string) {
+	q, ok := e.BuildQuery(x.rtDB, pfx, "-")
+	if !ok || e.Iface(id) == nil {
+		return nil, "bad-op"
+	}
+	// number of provider goroutines, as collectProviderByPrefix picks them: the registration with the longest key
+	// that is a prefix of the query prefix, else every registration below the query prefix
+	sp := pfx
+	if sp == "-" {
+		sp = ""
+	}
+	n := 0
+	for _, k := range x.provKeys {
+		if strings.HasPrefix(sp, k) {
+			n = 1
+		}
+	}
+	if n == 0 {
+		for _, k := range x.provKeys {
+			if strings.HasPrefix(k, sp) {
+				n++
+			}
+		}
+	}
+	gt := &gateCtl{events: make(chan gateEvt, 16)}
+	x.prov.gate = gt
+	defer func() { x.prov.gate = nil }()
+	it, err := e.Iface(id).Query(q)
+	if err != nil {
+		if strings.HasPrefix(dbx.ErrStr(err), "err:") {
+			return nil, "badquery"
+		}
+		return nil, dbx.ErrStr(err)
+	}
+	var got []record.Record
+	drained := make(chan struct{})
+	go func() {
+		for r := range it.Next {
+			got = append(got, r)
+		}
+		close(drained)
+	}()
+	next := func() (gateEvt, bool) {
+		select {
+		case ev := <-gt.events:
+			return ev, true
+		case <-time.After(10 * time.Second):
+			return gateEvt{}, false
+		}
+	}
+	var stopped []gateEvt
+	for len(stopped) < n {
+		ev, ok := next()
+		if !ok {
+			return nil, fmt.Sprintf("err:gated-query:%d-of-%d-provider-goroutines-arrived", len(stopped), n)
+		}
+		stopped = append(stopped, ev)
+	}
+	rng := newRand(seed)
+	steps := 0
+	for len(stopped) > 0 {
+		k := rng.Intn(len(stopped))
+		ev := stopped[k]
+		stopped = append(stopped[:k], stopped[k+1:]...)
+		ev.g.resume <- struct{}{}
+		steps++
+		if !ev.last {
+			nx, ok := next()
+			if !ok {
+				return nil, "err:gated-query:goroutine-did-not-reach-its-next-record"
+			}
+			stopped = append(stopped, nx)
+		}
+	}
+	select {
+	case <-drained:
+	case <-time.After(10 * time.Second):
+		return nil, "HANG"
+	}
+	gateLock.Lock()
+	gateStats[fmt.Sprintf("gated-query:providers=%d", n)]++
+	gateStats["gated-query:scheduler-steps"] += steps
+	gateLock.Unlock()
+	if ierr := it.Err(); ierr != nil {
+		return got, dbx.ErrStr(ierr)
+	}
+	return got, ""
+}
+
+var (
+	gateStats = map[string]int{}
+	gateLock  sync.Mutex
+)
+
+func unwrap(r record.Record) record.Record {
+	if g, ok := r.(*gateRec); ok {
+		return g.Record
+	}
+	return r
 }
 
 // Set may be called with the record locked (Put, setters) or not (Delete): it never locks.
@@ -66,9 +286,18 @@ var rtCounter int
 
 func (x *ext) api(e *dbx.Exec) *api.DatabaseAPI {
 	if x.dbapi == nil {
-		x.replies = make(chan string, 4096)
-		a := api.CreateDatabaseAPI(func(data []byte) { x.replies <- string(data) })
+		if x.replies == nil {
+			x.replies = make(chan string, 4096)
+		}
+		replies := x.replies
+		a := api.CreateDatabaseAPI(func(data []byte) {
+			select {
+			case replies <- string(data):
+			default: // nobody reads any more (the case is over)
+			}
+		})
 		x.dbapi = &a
+		e.Closers = append(e.Closers, a.VerifShutdown) // ends the API's subscriptions with the case
 	}
 	return x.dbapi
 }
@@ -110,42 +339,119 @@ func showAPIRecord(dbName, key, data string) string {
 	return k + "~" + dbx.ShowPayload(w)
 }
 
+// opCounter numbers the API requests of the whole run (operation ids never repeat, so a late message or event of an
+// earlier case cannot be mistaken for one of the current case).
+var opCounter int64
+
 func (x *ext) send(e *dbx.Exec, verb, rest string) (id string) {
-	x.opID++
-	id = strconv.Itoa(x.opID)
-	x.api(e).Handle([]byte(id + "|" + verb + "|" + rest))
+	id = strconv.FormatInt(atomic.AddInt64(&opCounter, 1), 10)
+	msg := []byte(id + "|" + verb + "|" + rest)
+	transportLock.Lock()
+	if x.via == "ws" {
+		transports["startDatabaseWebsocketAPI (websocket connection)"]++
+	} else {
+		transports["CreateDatabaseAPI (Handle)"]++
+	}
+	transportLock.Unlock()
+	if x.via == "ws" {
+		conn := x.wsConn(e)
+		if conn == nil {
+			x.replies <- id + "|error|" + x.wsErr
+			return id
+		}
+		if err := conn.WriteMessage(websocket.TextMessage, msg); err != nil {
+			x.replies <- id + "|error|websocket-write:" + err.Error()
+		}
+		return id
+	}
+	x.api(e).Handle(msg)
 	return id
 }
 
 func (x *ext) recv(id string) (typ string, parts []string, ok bool) {
+	split := func(r string) (string, []string) {
+		p := strings.SplitN(r, "|", 4)
+		return p[1], p[2:]
+	}
 	for {
+		if q := x.inbox[id]; len(q) > 0 {
+			x.inbox[id] = q[1:]
+			typ, parts = split(q[0])
+			return typ, parts, true
+		}
 		select {
 		case r := <-x.replies:
-			p := strings.SplitN(r, "|", 4)
-			if len(p) < 2 || p[0] != id {
-				continue // reply to an earlier operation
+			p := strings.SplitN(r, "|", 3)
+			if len(p) < 2 {
+				continue
 			}
-			return p[1], p[2:], true
+			// replies of other operations (notifications of a subscription, late messages) are kept for the
+			// operation that reads them: nothing that comes back from the API is dropped unseen
+			if x.inbox == nil {
+				x.inbox = map[string][]string{}
+			}
+			x.inbox[p[0]] = append(x.inbox[p[0]], r)
 		case <-time.After(10 * time.Second):
 			return "", nil, false
 		}
 	}
 }
 
+// subReady carries the operation ids of API subscriptions that have been registered with the database (verif event
+// "dbapi:sub-ready"): a `sub` request is not acknowledged on the wire.
+var subReady = make(chan string, 4096)
+
+func apiSink(point string, args ...any) {
+	if point == "dbapi:sub-ready" && len(args) > 0 {
+		if id, ok := args[0].(string); ok {
+			select {
+			case subReady <- id:
+			default:
+			}
+		}
+	}
+}
+
+// showSorted renders `ok <n> <records sorted by key>`.
+func showSorted(l []string) string {
+	sort.SliceStable(l, func(a, b int) bool {
+		return l[a][:strings.IndexByte(l[a], '~')] < l[b][:strings.IndexByte(l[b], '~')]
+	})
+	if len(l) == 0 {
+		return "ok 0"
+	}
+	return fmt.Sprintf("ok %d %s", len(l), strings.Join(l, " "))
+}
+
+func newRand(seed int64) *rand.Rand { return rand.New(rand.NewSource(seed)) }
+
 var cmpText = map[string]string{"eq": "==", "gt": ">", "ge": ">=", "lt": "<", "le": "<=", "sa": "sameas", "sw": "startswith", "ew": "endswith", "co": "contains"}
 
 func (x *ext) do(e *dbx.Exec, f []string) (string, bool) {
 	switch f[0] {
 	case "rtinit":
-		// rtinit [shadow]: the case's database becomes an injected runtime registry (shadow delete off / on) with
-		// one value provider at "p/" that keeps and logs what its Set receives
-		if len(f) > 2 || (len(f) == 2 && f[1] != "0" && f[1] != "1") {
+		// rtinit [shadow [m<k>]]: the case's database becomes an injected runtime registry (shadow delete off / on)
+		// whose value provider keeps and logs what its Set receives. Without m<k> it is registered once, at "p/"; with
+		// m<k> (k = 2..4) under k key prefixes "p/a/", "p/b/", … — k providers for the registry, so that a query whose
+		// prefix lies above them is served by k goroutines at once.
+		if len(f) > 3 || (len(f) >= 2 && f[1] != "0" && f[1] != "1") {
 			return "bad-op", true
+		}
+		regs := []string{"p/"}
+		if len(f) == 3 {
+			k := 0
+			if len(f[2]) == 2 && f[2][0] == 'm' {
+				k = int(f[2][1] - '0')
+			}
+			if k < 2 || k > 4 {
+				return "bad-op", true
+			}
+			regs = []string{"p/a/", "p/b/", "p/c/", "p/d/"}[:k]
 		}
 		rtCounter++
 		x.rtDB = fmt.Sprintf("vrt%d", rtCounter)
 		if _, err := database.Register(&database.Database{Name: x.rtDB, Description: "verification", StorageType: database.StorageTypeInjected,
-			ShadowDelete: len(f) == 2 && f[1] == "1"}); err != nil {
+			ShadowDelete: len(f) >= 2 && f[1] == "1"}); err != nil {
 			return dbx.ErrStr(err), true
 		}
 		reg := runtime.NewRegistry()
@@ -153,13 +459,70 @@ func (x *ext) do(e *dbx.Exec, f []string) (string, bool) {
 			return dbx.ErrStr(err), true
 		}
 		x.prov = &logProvider{e: e, recs: map[string]record.Record{}}
-		push, err := reg.Register("p/", x.prov)
-		if err != nil {
-			return dbx.ErrStr(err), true
+		x.provKeys = regs
+		for _, k := range regs {
+			push, err := reg.Register(k, x.prov)
+			if err != nil {
+				return dbx.ErrStr(err), true
+			}
+			x.push = push
 		}
-		x.push = push
 		e.UseDB(x.rtDB)
 		return "ok", true
+	case "rtgq":
+		// rtgq <if> <prefix> <seed>: a query on the runtime database with the provider goroutines of Registry.Query
+		// under a seeded scheduler (see gatedQuery). Answers like `query`.
+		if len(f) != 4 || x.prov == nil {
+			return "bad-op", true
+		}
+		seed, err := strconv.ParseInt(f[3], 10, 64)
+		if err != nil {
+			return "bad-op", true
+		}
+		got, es := x.gatedQuery(e, f[1], f[2], seed)
+		if es != "" && got == nil {
+			return es, true
+		}
+		var l []string
+		for _, r := range got {
+			l = append(l, e.ShowRec(unwrap(r)))
+		}
+		if es == "" {
+			es = "nil"
+		}
+		return showSorted(l) + " err=" + es, true
+	case "rtfq":
+		// rtfq <if> <prefix> <n>: the same query n times in a row, free running (the provider goroutines race as the
+		// scheduler lets them). Every repetition must list the same records; the answer is the union of all of them.
+		if len(f) != 4 || x.prov == nil || e.Iface(f[1]) == nil {
+			return "bad-op", true
+		}
+		n, err := strconv.Atoi(f[3])
+		q, ok := e.BuildQuery(x.rtDB, f[2], "-")
+		if err != nil || n < 1 || n > 100000 || !ok {
+			return "bad-op", true
+		}
+		seen := map[string]bool{}
+		var l []string
+		for k := 0; k < n; k++ {
+			it, err := e.Iface(f[1]).Query(q)
+			if err != nil {
+				if strings.HasPrefix(dbx.ErrStr(err), "err:") {
+					return "badquery", true
+				}
+				return dbx.ErrStr(err), true
+			}
+			for r := range it.Next {
+				if t := e.ShowRec(r); !seen[t] {
+					seen[t] = true
+					l = append(l, t)
+				}
+			}
+			if ierr := it.Err(); ierr != nil {
+				return showSorted(l) + " err=" + dbx.ErrStr(ierr), true
+			}
+		}
+		return showSorted(l) + " err=nil", true
 	case "rtput":
 		// the provider's value changes on its own (no Set, nothing logged)
 		if len(f) != 5 || x.prov == nil {
@@ -195,6 +558,13 @@ func (x *ext) do(e *dbx.Exec, f []string) (string, bool) {
 		c.Lock()
 		x.push(c)
 		c.Unlock()
+		return "ok", true
+	case "apivia":
+		// apivia <handle|ws>: which constructor of a DatabaseAPI serves the `api` operations that follow
+		if len(f) != 2 || (f[1] != "handle" && f[1] != "ws") {
+			return "bad-op", true
+		}
+		x.via = f[1]
 		return "ok", true
 	case "api":
 		if len(f) < 3 {
@@ -291,6 +661,86 @@ func (x *ext) do(e *dbx.Exec, f []string) (string, bool) {
 				return "ok", true
 			}
 			return apiErr(strings.Join(p, "|")), true
+		case "sub":
+			// api sub <name> <prefix>: a subscription through the database API. The request is not acknowledged;
+			// the op returns when the API has registered it with the database.
+			if len(f) != 4 {
+				return "bad-op", true
+			}
+			pfx := f[3]
+			if pfx == "-" {
+				pfx = ""
+			}
+			id := x.send(e, "sub", "query "+db+":"+pfx)
+			deadline := time.After(10 * time.Second)
+			for {
+				if q := x.inbox[id]; len(q) > 0 { // an error reply
+					x.inbox[id] = q[1:]
+					p := strings.SplitN(q[0], "|", 4)
+					return apiErr(strings.Join(p[2:], "|")), true
+				}
+				select {
+				case rid := <-subReady:
+					if rid == id {
+						if x.apiSubs == nil {
+							x.apiSubs = map[string]string{}
+						}
+						x.apiSubs[f[2]] = id
+						return "ok", true
+					}
+				case r := <-x.replies:
+					if p := strings.SplitN(r, "|", 3); len(p) >= 2 {
+						if x.inbox == nil {
+							x.inbox = map[string][]string{}
+						}
+						x.inbox[p[0]] = append(x.inbox[p[0]], r)
+					}
+				case <-deadline:
+					return "HANG", true
+				}
+			}
+		case "feed":
+			// api feed <name> <sentinel key>: everything the API pushed for the subscription, in order, up to and
+			// including the notification about the sentinel record (written just before by a privileged interface:
+			// notifications are delivered in order, so nothing that was pushed earlier is still under way)
+			if len(f) != 4 || x.apiSubs[f[2]] == "" {
+				return "bad-op", true
+			}
+			id := x.apiSubs[f[2]]
+			var items []string
+			for {
+				typ, p, ok := x.recv(id)
+				if !ok {
+					return "HANG", true
+				}
+				key := ""
+				if len(p) >= 1 {
+					key = strings.TrimPrefix(p[0], db+":")
+				}
+				switch typ {
+				case "upd", "new":
+					if len(p) == 2 {
+						items = append(items, "upd:"+showAPIRecord(db, p[0], p[1]))
+					} else {
+						items = append(items, "upd:"+key+"~undecodable")
+					}
+				case "del":
+					items = append(items, "del:"+key)
+				case "warning": // a record the API cannot render as JSON: the operation continues
+					continue
+				default:
+					items = append(items, "unexpected:"+typ+":"+strings.Join(p, "|"))
+				}
+				if key == f[3] {
+					if len(items) == 0 {
+						return "ok 0", true
+					}
+					return fmt.Sprintf("ok %d %s", len(items), strings.Join(items, " ")), true
+				}
+				if typ == "done" || typ == "error" {
+					return fmt.Sprintf("ok %d %s", len(items), strings.Join(items, " ")), true
+				}
+			}
 		case "delete":
 			id := x.send(e, "delete", db+":"+f[2])
 			typ, p, ok := x.recv(id)
@@ -343,6 +793,14 @@ func (g *gen) history(emit func(hxlib.Case), backend string, shadow bool) {
 		sh = "1"
 	}
 	lines := []string{"cfg " + backend + " " + sh}
+	// every constructor of a DatabaseAPI is driven: the in-process one through Handle, the websocket endpoint
+	// through a real connection (a third of the histories)
+	via := "handle"
+	if rng.Intn(3) == 0 {
+		via = "ws"
+		lines = append(lines, "apivia ws")
+	}
+	g.r.Count("api-transport:" + via)
 	pOpts := []string{"0 0 0 0", "0 0 0 0", "1 0 0 0", "0 1 0 0"}[rng.Intn(4)]
 	lines = append(lines, "if P 1 1 n "+pOpts)
 	// A read cache must be used exclusively (it does not notice writes of other interfaces): in a cached history
@@ -503,6 +961,23 @@ func (g *gen) history(emit func(hxlib.Case), backend string, shadow bool) {
 			lines = append(lines, fmt.Sprintf("feed s%d", i))
 		}
 	}
+	// a subscription through the database API (uncached histories, one in four): after every step a fully privileged
+	// interface writes a sentinel record the API may see, and the notifications are read up to the sentinel's
+	apiSub, sentinel := false, ""
+	if !anyCached && rng.Intn(4) == 0 {
+		apiSub = true
+		pfx := g.pick([]string{"-", "-", "a", "c/"})
+		sentinel = map[string]string{"-": "zsent", "a": "a/zsent", "c/": "c/zsent"}[pfx]
+		lines = append(lines, "if Z 1 1 n 0 0 0 0", "api sub as1 "+pfx)
+		g.r.Count("op:subscribe:api")
+	}
+	drain0 := drain
+	drain = func() {
+		drain0()
+		if apiSub {
+			lines = append(lines, "put Z "+sentinel+" J 0,0,0,0,0,0 S=s:sent", "api feed as1 "+sentinel)
+		}
+	}
 	n := 20 + rng.Intn(60)
 	if anyCached {
 		// phase 1: the privileged interface writes; phase 2: everybody else works, P only reads
@@ -563,12 +1038,35 @@ func actorClass(a string) string {
 // expiry and flag setters, attribute insert, get-and-put-back, batch, purge, API create / update / insert / delete,
 // subscriptions, provider pushes, and the provider changing a value on its own. After every step the provider's
 // Set log and the feeds are drained, so that every Set is attributed to the step that caused it.
-func (g *gen) runtimeCase(emit func(hxlib.Case)) {
+func (g *gen) runtimeCase(emit func(hxlib.Case), multi int) {
 	rng := g.r.Rng
 	sh := g.pick([]string{"0", "1"})
 	lines := []string{"cfg h 0", "rtinit " + sh}
+	if multi > 0 {
+		lines[1] = fmt.Sprintf("rtinit %s m%d", sh, multi)
+	}
+	if rng.Intn(3) == 0 {
+		lines = append(lines, "apivia ws")
+		g.r.Count("api-transport:ws")
+	} else {
+		g.r.Count("api-transport:handle")
+	}
 	keys := []string{"p/a", "p/ab", "p/b", "p/c/d", "p/a/x"}
 	prefixes := []string{"-", "p", "p/", "p/a", "p/c/"}
+	subPrefixes := []string{"p/", "p/a", "p/c/"}
+	if multi > 0 {
+		// several providers ("p/a/", "p/b/", …) under the query prefixes "-", "p", "p/": one goroutine each in
+		// Registry.Query; every provider holds a mix of protected and visible records
+		keys, prefixes, subPrefixes = nil, []string{"-", "-", "p", "p/", "p/", "p/", "p/a/", "p/b/", "p/a/s"}, []string{"p/", "p/a/", "p/b/"}
+		for k := 0; k < multi; k++ {
+			l := string(rune('a' + k))
+			keys = append(keys, "p/"+l+"/1", "p/"+l+"/2", "p/"+l+"/s/3")
+			if k >= 2 {
+				prefixes = append(prefixes, "p/"+l+"/")
+			}
+		}
+		rng.Shuffle(len(keys), func(i, j int) { keys[i], keys[j] = keys[j], keys[i] })
+	}
 	for _, a := range append(actors, struct{ id, l, i string }{"P", "1", "1"}) {
 		lines = append(lines, fmt.Sprintf("if %s %s %s n 0 0 0 0", a.id, a.l, a.i))
 	}
@@ -595,7 +1093,7 @@ func (g *gen) runtimeCase(emit func(hxlib.Case)) {
 		note(keys[i], form)
 		step(fmt.Sprintf("rtput %s %s 0,0,0,0,%s %s", keys[i], form, fl, dbx.GenFields(rng, form, fmt.Sprintf("m%d", g.marker))))
 	}
-	for i := 0; i < rng.Intn(4); i++ {
+	for i := 0; i < rng.Intn(4)+2*multi; i++ {
 		k, form, l := g.rec(keys, []string{"T", "J", "J", "R"})
 		note(k, form)
 		step("rtput " + l)
@@ -614,8 +1112,18 @@ func (g *gen) runtimeCase(emit func(hxlib.Case)) {
 			step("exists " + a + " " + k)
 			cls += "exists"
 		case x < 18:
-			step(fmt.Sprintf("query %s %s -", a, g.pick(prefixes)))
-			cls += "query"
+			switch {
+			case multi > 0 && rng.Intn(4) != 0:
+				// the provider goroutines of Registry.Query under a seeded scheduler
+				step(fmt.Sprintf("rtgq %s %s %d", a, g.pick(prefixes), rng.Intn(1000000)))
+				cls += "query-gated-provider-goroutines"
+			case multi > 0:
+				step(fmt.Sprintf("rtfq %s %s %d", a, g.pick(prefixes), g.r.Budget(20, 200)))
+				cls += "query-repeated-free-running"
+			default:
+				step(fmt.Sprintf("query %s %s -", a, g.pick(prefixes)))
+				cls += "query"
+			}
 		case x < 34:
 			k2, form, l := g.rec(keys, []string{"T", "J", "J", "R"})
 			note(k2, form)
@@ -675,7 +1183,7 @@ func (g *gen) runtimeCase(emit func(hxlib.Case)) {
 			step("api get " + k)
 			a, cls = "api", cls+"get"
 		case x < 86:
-			step(fmt.Sprintf("api query %s -", g.pick([]string{"p/", "p/a", "p/c/"})))
+			step(fmt.Sprintf("api query %s -", g.pick(subPrefixes)))
 			a, cls = "api", cls+"query"
 		case x < 92:
 			g.marker++
@@ -699,6 +1207,13 @@ func (g *gen) runtimeCase(emit func(hxlib.Case)) {
 		}
 	}
 	step("query P p/ -", "query A p/ -", "query B p/ -", "query C p/ -", "api query p/ -")
+	if multi > 0 {
+		for _, a := range []string{"A", "B", "C"} {
+			step(fmt.Sprintf("rtgq %s p/ %d", a, rng.Intn(1000000)), fmt.Sprintf("rtgq %s - %d", a, rng.Intn(1000000)))
+		}
+		emit(hxlib.Case{Lines: lines, NonTrivial: true, Kind: fmt.Sprintf("runtime-registry:%d-providers:%s", multi, sh)})
+		return
+	}
 	emit(hxlib.Case{Lines: lines, NonTrivial: true, Kind: "runtime-registry:" + sh})
 }
 
@@ -753,6 +1268,29 @@ func (g *gen) parkCase(emit func(hxlib.Case), backend string) {
 	emit(hxlib.Case{Lines: lines, NonTrivial: true, Kind: "query-vs-reflag:" + backend, NoModel: true})
 }
 
+// registryStress: four providers under one query prefix, each holding protected and visible records in alternation, and
+// the same query repeated thousands of times free running — real parallelism between the provider goroutines of
+// Registry.Query, for windows no stop point of the gated scheduler lies in (and for the race detector, thorough tier).
+func (g *gen) registryStress(emit func(hxlib.Case)) {
+	lines := []string{"cfg h 0", "rtinit 0 m4"}
+	for _, a := range append(actors, struct{ id, l, i string }{"P", "1", "1"}) {
+		lines = append(lines, fmt.Sprintf("if %s %s %s n 0 0 0 0", a.id, a.l, a.i))
+	}
+	flags := []string{"1,1", "0,0", "1,0", "0,0", "0,1", "0,0"}
+	n := 0
+	for _, x := range []string{"a", "b", "c", "d"} {
+		for _, k := range []string{"1", "2", "s/3"} {
+			g.marker++
+			lines = append(lines, fmt.Sprintf("rtput p/%s/%s J 0,0,0,0,%s S=s:m%d;I=i:%d", x, k, flags[n%len(flags)], g.marker, n))
+			n++
+		}
+		n++ // shift the pattern from provider to provider
+	}
+	reps := g.r.Budget(3000, 6000) // the thorough tier is built with -race (≈ 10 x slower); an op has 20 s
+	lines = append(lines, fmt.Sprintf("rtfq A p/ %d", reps), fmt.Sprintf("rtfq B p/ %d", reps), fmt.Sprintf("rtfq C - %d", reps), "query P p/ -")
+	emit(hxlib.Case{Lines: lines, NonTrivial: true, Kind: "runtime-registry:4-providers:free-running-stress"})
+}
+
 func generate(r *hxlib.Run, emit0 func(hxlib.Case)) {
 	emit := func(c hxlib.Case) {
 		if !dbx.Hung() {
@@ -763,18 +1301,24 @@ func generate(r *hxlib.Run, emit0 func(hxlib.Case)) {
 	// regression: every path once with a secret and a crown-jewel record
 	base := []string{"if P 1 1 n 0 0 0 0", "if A 0 0 n 0 0 0 0", "if B 0 1 r 0 0 0 0", "if C 1 0 n 0 0 0 0",
 		"put P a/x J 0,0,0,0,1,0 S=s:m1;I=i:7", "put P a/y T 0,0,0,0,0,1 S=s:m2;I=i:7;F=f:0;B=b:0;N=o{X=i:0};L=a[]", "put P b J 0,0,0,0,1,1 S=s:m3", "put P abc J 0,0,0,0,0,0 S=s:m4",
-		"sub A s1 - -", "sub B s2 - -", "sub C s3 - -",
+		"sub A s1 - -", "sub B s2 - -", "sub C s3 - -", "if Z 1 1 n 0 0 0 0", "api sub as1 -",
 		"get A a/x", "get B a/x", "get C a/x", "get A a/y", "get B a/y", "get C a/y", "exists A b", "get A abc",
 		"query A - -", "query B - -", "query C - -", "api get a/x", "api get abc", "api query - -",
 		"put A a/x J 0,0,0,0,0,0 S=s:m5", "del A a/x", "setabs A a/x 5", "mkcrown B a/x", "insert A a/x S s:m6", "api update a/x S=s:m7", "api delete a/x", "api insert a/x S s:m8",
 		"pmbegin A", "pmput A a/x J 0,0,0,0,0,0 S=s:m9", "pmend A", "purge A - -", "get P a/x", "get P a/y", "get P b",
-		"put P a/x J 0,0,0,0,1,0 S=s:m10", "mksecret P abc", "del P b", "feed s1", "feed s2", "feed s3"}
+		"put Z zsent J 0,0,0,0,0,0 S=s:sent", "api feed as1 zsent",
+		"put P a/x J 0,0,0,0,1,0 S=s:m10", "mksecret P abc", "del P b", "feed s1", "feed s2", "feed s3",
+		"put Z zsent J 0,0,0,0,0,0 S=s:sent", "api feed as1 zsent"}
 	for _, b := range []string{"h", "b", "f", "g"} {
 		for _, sh := range []string{"0", "1"} {
 			emit(hxlib.Case{Lines: append([]string{"cfg " + b + " " + sh}, base...), NonTrivial: true, Kind: "regression"})
 		}
+		// the same walk with the API operations over a real websocket connection
+		emit(hxlib.Case{Lines: append([]string{"cfg " + b + " 0", "apivia ws"}, base...), NonTrivial: true, Kind: "regression:websocket-api"})
 	}
-	n := r.Budget(400, 6000)
+	g.registryStress(emit)
+	// the thorough tier is built with -race (the multi-provider registry queries race for real): ≈ 0.5 s per round there
+	n := r.Budget(400, 1500)
 	for i := 0; i < n; i++ {
 		for _, backend := range []string{"h", "b", "f", "g"} {
 			g.history(emit, backend, r.Rng.Intn(2) == 0)
@@ -783,7 +1327,12 @@ func generate(r *hxlib.Run, emit0 func(hxlib.Case)) {
 			}
 		}
 		if i%4 == 0 {
-			g.runtimeCase(emit)
+			// alternately one provider, and 2-4 providers under one query prefix
+			if i%8 == 0 {
+				g.runtimeCase(emit, 0)
+			} else {
+				g.runtimeCase(emit, 2+r.Rng.Intn(3))
+			}
 		}
 	}
 }
@@ -1093,11 +1642,12 @@ func monitor(c hxlib.Case, outs []string) (vs []hxlib.Violation) {
 
 func main() {
 	defer dbx.Cleanup()
+	api.VerifSetSink(apiSink)
 	hxlib.Main(&hxlib.Harness{
 		Prop:     "C03",
 		Rule: "a case is one history on one backend (hashmap/bbolt/fstree/badger x shadow-delete) or on an injected runtime database (runtime.Registry whose value provider keeps and logs every record its Set receives, starts with records of all four flag combinations and also changes and pushes values on its own; all actors read and write there: put, put-new, delete, expiry and flag setters, attribute insert, get-and-put-back, batch, purge, API create/update/insert/delete; the Set log and the feeds are drained after every step and the monitor checks that no Set reaches the provider for a key whose current record is visible and not permitted for the actor of that step): a privileged interface (sometimes with AlwaysMakeSecret / AlwaysMakeCrownjewel) writes records with all four flag combinations, each carrying a unique marker string; interfaces with Local/Internal = 00, 01, 10 (one of them possibly with a read cache, then used exclusively) and the database API (NewInterface(nil)) get, test existence, query, put, put-new, delete, set expiry, re-flag, insert attributes, batch-write, purge and subscribe; feeds are drained after every step. Outputs are compared with the compiled Lean model line by line; the monitor checks that no output of a non-privileged actor contains the marker of a record version that actor may not see, and replays the case on a reference map with the permission rules (denied / exists-only / no write-through). Regression cases walk every path once per backend. Parked-query cases (every 10th round, per backend, implementation only): 4-60 records below one prefix, some already protected; a non-privileged query whose consumer does not read until the result buffer is full (or the executor is done), then the privileged interface marks a subset secret / crown jewel / both and returns, then the consumer reads on; records are rendered as they arrive: no marker of a record protected before the query began, and from the (buffer capacity + 2)-th arrival on no record that itself carries a flag the interface may not see. Distinct by the hash of the lines.",
 		Extra: func(*hxlib.Run) map[string]any {
-			return map[string]any{"unprivileged_outcomes": outcomes}
+			return map[string]any{"unprivileged_outcomes": outcomes, "api_operations_per_constructor": transports, "registry_query_scheduler": gateStats}
 		},
 		Generate: generate,
 		NewExec: func(*hxlib.Run) hxlib.Exec {
